@@ -11,6 +11,8 @@ from unittest.mock import AsyncMock, MagicMock
 
 _loop: asyncio.AbstractEventLoop | None = None
 TAG = "X"
+SYS = "System State"
+STATES = ["Stopped", "Running", "Paused"]     # wire code 0/1/2 of the System State value
 
 
 def loop() -> asyncio.AbstractEventLoop:
@@ -116,12 +118,15 @@ class ReconnHarness:
             EM.RunStoppedMsg(engine_id=self.engine_id, run_id=_rid(k), runlog=PM.RunLog.empty(),
                              method_state=PM.MethodState.empty(), archive=None, archive_filename=None))))
 
-    def tags(self, k: int | None, t: int) -> str:
+    def tags(self, k: int | None, t: int, state: int | None = None) -> str:
+        """TagsUpdatedMsg with X @ t and, if `state` is given, System State = STATES[state] @ t."""
         import openpectus.protocol.engine_messages as EM
         import openpectus.protocol.models as PM
-        tv = PM.TagValue(name=TAG, tick_time=float(t), value=t, value_unit=None)
+        tvs = [PM.TagValue(name=TAG, tick_time=float(t), value=t, value_unit=None)]
+        if state is not None:
+            tvs.append(PM.TagValue(name=SYS, tick_time=float(t), value=STATES[state], value_unit=None))
         return self._reply(run(self.handlers.handle_TagsUpdatedMsg(
-            EM.TagsUpdatedMsg(engine_id=self.engine_id, tags=[tv], run_id=None if k is None else _rid(k)))))
+            EM.TagsUpdatedMsg(engine_id=self.engine_id, tags=tvs, run_id=None if k is None else _rid(k)))))
 
     @staticmethod
     def _reply(msg) -> str:
@@ -143,7 +148,7 @@ class ReconnHarness:
         if kind == "stop":
             return self.stop(op[1])
         if kind == "tags":
-            return self.tags(op[1], op[2])
+            return self.tags(op[1], op[2], op[3] if len(op) > 3 else None)
         raise ValueError(op)
 
     # -- observations ----------------------------------------------------------------------------
@@ -156,17 +161,22 @@ class ReconnHarness:
         from sqlalchemy import select
         D = self.DMdl
         ed = self.agg.get_registered_engine_data(self.engine_id)
-        f: dict[str, Any] = {"registered": ed is not None, "run": None, "lp": None, "tt": None}
+        f: dict[str, Any] = {"registered": ed is not None, "run": None, "lp": None, "tt": None, "ss": None, "st": None}
         if ed is not None:
             if ed.has_run():
                 f["run"] = ed.run_data.run_id
                 f["lp"] = ed.run_data.latest_persisted_tick_time
             tv = ed.tags_info.get(TAG)
             f["tt"] = None if tv is None else tv.tick_time
+            sv = ed.tags_info.get(SYS)
+            if sv is not None:
+                f["ss"], f["st"] = sv.value, sv.tick_time
         with self.database.create_scope():
             s = self.database.scoped_session()
-            rows = s.execute(select(D.RecentEngine.run_id).where(D.RecentEngine.engine_id == self.engine_id)).all()
+            rows = s.execute(select(D.RecentEngine.run_id, D.RecentEngine.system_state)
+                             .where(D.RecentEngine.engine_id == self.engine_id)).all()
             f["row"] = "none" if not rows else rows[0][0]
+            f["row_state"] = None if not rows else rows[0][1]
             f["row_count"] = len(rows)
             logs = s.execute(select(D.PlotLog.id, D.PlotLog.run_id).order_by(D.PlotLog.id)).all()
             f["logs"] = [r for (_, r) in logs]
@@ -189,9 +199,11 @@ class ReconnHarness:
 
         def nl(xs):
             return ",".join(xs) if xs else "-"
-        mem = (f"reg=1 run={cls._k(f['run'])} lp={num(f['lp'])} tt={num(f['tt'])}" if f["registered"]
-               else "reg=0 run=- lp=- tt=-")
-        row = "none" if f["row"] == "none" else cls._k(f["row"])
+        def state(x):
+            return "-" if x in (None, "") else str(STATES.index(str(x)))
+        mem = (f"reg=1 run={cls._k(f['run'])} lp={num(f['lp'])} tt={num(f['tt'])} ss={state(f['ss'])}@{num(f['st'])}"
+               if f["registered"] else "reg=0 run=- lp=- tt=- ss=-@-")
+        row = "none" if f["row"] == "none" else cls._k(f["row"]) + "/" + state(f["row_state"])
         vals = ";".join(f"{i}:{num(t)}" for (i, t, _) in f["values"]) or "-"
         return (f"{mem} row={row} logs={nl([cls._k(r) for r in f['logs']])} vals={vals} "
                 f"recent={nl([cls._k(r) for r in f['recent']])}")
@@ -201,7 +213,8 @@ def op_line(op: list) -> str:
     if op[0] in ("start", "stop"):
         return f"{op[0]}\t{op[1]}"
     if op[0] == "tags":
-        return f"tags\t{'-' if op[1] is None else op[1]}\t{op[2]}"
+        st = op[3] if len(op) > 3 and op[3] is not None else "-"
+        return f"tags\t{'-' if op[1] is None else op[1]}\t{op[2]}\t{st}"
     return op[0]
 
 
